@@ -194,7 +194,8 @@ class Replayer:
                 res = getattr(al, a)(es, dtype=X[i]) if self.variant % 2 == 0 or len(es) != 1 else getattr(al, a)(es[0], dtype=X[i])
         elif a in ("conjugate", "real", "imag"):
             res = getattr(al, a)(X[i])
-            self.noalias.add(len(self.objs))        # numpy.real / imag / conjugate may or may not return views: not part of the property
+            if a != "conjugate":                   # numpy.conjugate always returns a new array; numpy.real / imag return views or not
+                self.noalias.add(len(self.objs))    # depending on the dtype: not part of the property
             if self.slicewise:
                 self.slice_check(res, X[i], lambda s_: getattr(numpy, a)(s_), a)
         elif a in ("fft", "ifft"):
